@@ -168,6 +168,18 @@ type urlWrite struct {
 	Expr      string `json:"value_expr"`
 }
 
+// patWrite is a store into DNSFilter.safeFSPatterns.
+type patWrite struct {
+	ID   int    `json:"id"`
+	Pos  string `json:"pos"`
+	Func string `json:"func"`
+	// Kind 1: `d.safeFSPatterns = append(d.safeFSPatterns, p)` inside
+	// `for _, p := range c.SafeFSPatterns` of filtering.New, after
+	// `_, err = filepath.Match(p, …); if err != nil { return … }`.  0: anything else.
+	Kind int    `json:"kind"`
+	Expr string `json:"value_expr"`
+}
+
 type funcInfo struct {
 	decl *ast.FuncDecl
 	pkg  *packages.Package
@@ -191,6 +203,7 @@ type extractor struct {
 	repo    string
 	sites   []*site
 	writes  []*urlWrite
+	pats    []*patWrite
 	funcs   map[*types.Func]funcInfo
 	callsOf map[*types.Func][]callInfo
 	// fieldWrites: every value stored into a struct field in the module.
@@ -283,6 +296,7 @@ func main() {
 	x.requireAnchors()
 	x.collect()
 	x.collectURLWrites()
+	x.collectPatternWrites()
 	x.write()
 }
 
@@ -1345,6 +1359,170 @@ func rootVar(info *types.Info, e ast.Expr) types.Object {
 	}
 }
 
+// ---------------------------------------------------------------- safe patterns
+
+// collectPatternWrites lists every store into DNSFilter.safeFSPatterns and
+// recognises the one shape that copies the configured list, validated, with
+// nothing added.
+func (x *extractor) collectPatternWrites() {
+	var field *types.Var
+	var cfgField *types.Var
+	for _, pkg := range x.pkgs {
+		if pkg.PkgPath != fltPkg {
+			continue
+		}
+		for _, tc := range []struct {
+			typ, fld string
+			dst      **types.Var
+		}{{"DNSFilter", "safeFSPatterns", &field}, {"Config", "SafeFSPatterns", &cfgField}} {
+			tn, _ := pkg.Types.Scope().Lookup(tc.typ).(*types.TypeName)
+			if tn == nil {
+				continue
+			}
+			st, ok := tn.Type().Underlying().(*types.Struct)
+			if !ok {
+				continue
+			}
+			for i := 0; i < st.NumFields(); i++ {
+				if st.Field(i).Name() == tc.fld {
+					*tc.dst = st.Field(i)
+				}
+			}
+		}
+	}
+	if field == nil || cfgField == nil {
+		fmt.Fprintln(os.Stderr, "extract c17: anchor fields DNSFilter.safeFSPatterns / Config.SafeFSPatterns not found")
+		os.Exit(3)
+	}
+	ws := append([]fieldWrite{}, x.fieldWrites[field]...)
+	sort.Slice(ws, func(i, j int) bool { return ws[i].val.Pos() < ws[j].val.Pos() })
+	for _, w := range ws {
+		pw := &patWrite{ID: len(x.pats), Pos: x.pos(w.val.Pos()), Func: x.funcName(w.pkg, w.fn), Expr: x.exprText(w.val)}
+		if w.fn != nil && pw.Func == fltPkg+".New" && x.isConfiguredAppend(w.pkg, w.fn, w.val, field, cfgField) {
+			pw.Kind = 1
+		}
+		x.pats = append(x.pats, pw)
+	}
+	// Any other way of reaching the field (address taken, passed by pointer)
+	// is outside the supported subset.
+	for _, pkg := range x.pkgs {
+		for _, file := range pkg.Syntax {
+			ast.Inspect(file, func(n ast.Node) bool {
+				un, ok := n.(*ast.UnaryExpr)
+				if !ok || un.Op != token.AND {
+					return true
+				}
+				if se, isSel := ast.Unparen(un.X).(*ast.SelectorExpr); isSel {
+					if sel, has := pkg.TypesInfo.Selections[se]; has && sel.Obj() == field {
+						x.fatal(un.Pos(), "address of DNSFilter.safeFSPatterns taken")
+					}
+				}
+
+				return true
+			})
+		}
+	}
+}
+
+func (x *extractor) isConfiguredAppend(pkg *packages.Package, fd *ast.FuncDecl, val ast.Expr, field, cfgField *types.Var) bool {
+	info := pkg.TypesInfo
+	call, ok := ast.Unparen(val).(*ast.CallExpr)
+	if !ok || len(call.Args) != 2 || call.Ellipsis != token.NoPos {
+		return false
+	}
+	if id, isID := ast.Unparen(call.Fun).(*ast.Ident); !isID || id.Name != "append" {
+		return false
+	} else if _, isBuiltin := info.Uses[id].(*types.Builtin); !isBuiltin {
+		return false
+	}
+	se, ok := ast.Unparen(call.Args[0]).(*ast.SelectorExpr)
+	if !ok {
+		return false
+	}
+	if sel, has := info.Selections[se]; !has || sel.Obj() != field {
+		return false
+	}
+	p := varOf(info, call.Args[1])
+	if p == nil {
+		return false
+	}
+	// Find the range statement that declares p and contains the append.
+	found := false
+	ast.Inspect(fd.Body, func(n ast.Node) bool {
+		rs, isRange := n.(*ast.RangeStmt)
+		if !isRange || rs.Value == nil || varOf(info, rs.Value) != p || !containsNode(rs.Body, call) {
+			return true
+		}
+		// … over the configured list itself
+		xs, isSel := ast.Unparen(rs.X).(*ast.SelectorExpr)
+		if !isSel {
+			return true
+		}
+		sel, has := info.Selections[xs]
+		if !has || sel.Obj() != cfgField {
+			return true
+		}
+		if _, isParam := paramIndexOf(info, fd, rootVar(info, xs)); !isParam {
+			return true
+		}
+		// … with the validation and its error return before the append,
+		// directly in the loop body, and no assignment to p.
+		ai := -1
+		for i, st := range rs.Body.List {
+			if containsNode(st, call) {
+				ai = i
+			}
+		}
+		vi := -1
+		for i := 0; i+1 < ai; i++ {
+			as, isAs := rs.Body.List[i].(*ast.AssignStmt)
+			if !isAs || len(as.Rhs) != 1 || len(as.Lhs) != 2 {
+				continue
+			}
+			mc, isCall := ast.Unparen(as.Rhs[0]).(*ast.CallExpr)
+			if !isCall || len(mc.Args) != 2 || varOf(info, mc.Args[0]) != p {
+				continue
+			}
+			fn := calleeOf(info, mc)
+			if fn == nil || fullName(fn) != "path/filepath.Match" {
+				continue
+			}
+			errVar := varOf(info, as.Lhs[1])
+			ifs, isIf := rs.Body.List[i+1].(*ast.IfStmt)
+			if !isIf || ifs.Else != nil || !endsInReturn(ifs.Body) {
+				continue
+			}
+			be, isBin := ast.Unparen(ifs.Cond).(*ast.BinaryExpr)
+			if !isBin || be.Op != token.NEQ || varOf(info, be.X) != errVar {
+				continue
+			}
+			vi = i
+		}
+		if ai < 0 || vi < 0 {
+			return true
+		}
+		for _, st := range rs.Body.List {
+			if !containsNode(st, call) && assignsVar(info, st, p) {
+				return true
+			}
+		}
+		found = true
+
+		return false
+	})
+
+	return found
+}
+
+func paramIndexOf(info *types.Info, fd *ast.FuncDecl, obj types.Object) (int, bool) {
+	vr, ok := obj.(*types.Var)
+	if !ok {
+		return 0, false
+	}
+
+	return paramIndex(info, fd, vr)
+}
+
 // ---------------------------------------------------------------- output
 
 func (x *extractor) write() {
@@ -1388,6 +1566,20 @@ func (x *extractor) write() {
 			strings.TrimPrefix(w.Func, modPath+"/internal/"), w.ProvTxt)
 	}
 	sb.WriteString("]\n\n")
+	sb.WriteString("/-- A store into `DNSFilter.safeFSPatterns`.  kind 1: the append of the element of\n")
+	sb.WriteString("`for _, p := range c.SafeFSPatterns` in filtering.New, after `filepath.Match(p, …)` and its error\n")
+	sb.WriteString("return; kind 0: anything else (a default, a literal, another function). -/\n")
+	sb.WriteString("structure PatternWrite where\n  id : Nat\n  kind : Nat\n  deriving DecidableEq, Repr\n\n")
+	sb.WriteString("def patternWrites : List PatternWrite := [\n")
+	for i, w := range x.pats {
+		comma := ","
+		if i == len(x.pats)-1 {
+			comma = ""
+		}
+		fmt.Fprintf(&sb, "  ⟨%d, %d⟩%s  -- %s safeFSPatterns := %s in %s\n", w.ID, w.Kind, comma, w.Pos, oneLine(w.Expr),
+			strings.TrimPrefix(w.Func, modPath+"/internal/"))
+	}
+	sb.WriteString("]\n\n")
 	sb.WriteString("/-- References, outside internal/filtering/rulelist and outside tests, to the constructors\n")
 	sb.WriteString("(NewFilter, NewEngine, NewStorage, NewTextEngine) of the rule-list implementation that is not wired\n")
 	sb.WriteString("into the server yet. -/\n")
@@ -1426,7 +1618,7 @@ func (x *extractor) write() {
 			sum.URLWritesReq++
 		}
 	}
-	out := map[string]any{"summary": sum, "sites": x.sites, "url_writes": x.writes, "repo": x.repo}
+	out := map[string]any{"summary": sum, "sites": x.sites, "url_writes": x.writes, "pattern_writes": x.pats, "repo": x.repo}
 	b, err := json.MarshalIndent(out, "", " ")
 	must(err)
 	factsDir := filepath.Join(verif, "build/C17")
